@@ -35,12 +35,8 @@ GUARD = "BITS_VERIF_CURVE"
 # ----------------------------------------------------------------------------- helpers
 def filler(seed: int, label: str, n: int) -> bytes:
     """Deterministic filler bytes: selects *contents* only, never which cases are explored."""
-    out = b""
-    ctr = 0
-    while len(out) < n:
-        out += hashlib.sha256(f"{seed}|{label}|{ctr}".encode()).digest()
-        ctr += 1
-    return out[:n]
+    pre = f"{seed}|{label}|".encode()
+    return b"".join(hashlib.sha256(pre + str(ctr).encode()).digest() for ctr in range((n + 31) // 32))[:n]
 
 
 def lookalikes(n: int):
